@@ -1,0 +1,20 @@
+//go:build !verif
+
+package simhook
+
+import "io"
+
+// Enabled reports whether the simulation hooks are compiled in.
+const Enabled = false
+
+func Active() bool                                    { return false }
+func Spawn(key any)                                   {}
+func Start(key any)                                   {}
+func Exit(key any)                                    {}
+func Join()                                           {}
+func Point(name string, arg int)                      {}
+func Spin(name string, seen, want int32)              {}
+func Corrupt(site string, buf []byte)                 {}
+func Recovered(r any)                                 {}
+func WrapWriteCloser(w io.WriteCloser) io.WriteCloser { return w }
+func WrapReadCloser(r io.ReadCloser) io.ReadCloser    { return r }
